@@ -31,7 +31,7 @@ func checkC17(c *Ctx) {
 	ruleLayerOrder(c, dv)
 	ruleNoNarrowTransposition(c, dv)
 	ruleConfiguredColourUnmodified(c, dv)
-	c.importRules(noSharedStateRules, []string{"R16.5"}, "R17.12") // the highlight state belongs to one device object: nothing shared with other devices or earlier attaches
+	c.importRules(noSharedStateRules, []string{"R16.5"}, "R17.12")              // the highlight state belongs to one device object: nothing shared with other devices or earlier attaches
 	c.importRules(transportRules, []string{"R15.1", "R15.2", "R15.3"}, "R17.8") // MIDI-input messages reach every connected device (fan-out ids, delivery loop)
 	c.MinCount("R17.7", 8)
 	c.MinCount("R17.1", 4)
